@@ -306,7 +306,7 @@ pub fn run_session(sess: &Value, epilogue: Option<&[u8]>) -> Outcome {
                 sops.push(format!("SD (Ob {} {})", s, p));
                 jobs.push(json!({"op":"d","send":s,"pending":p,"pending_before":before}));
             }
-            "z" => peer.ctl(Ctl::Pause(o[1].as_bool().unwrap_or(false))),
+            "z" => peer.pause(o[1].as_bool().unwrap_or(false)),
             "r" => peer.ctl(Ctl::Rates(rates_of(&o[1]))),
             _ => {}
         }
